@@ -66,6 +66,7 @@ import Sds.Proofs.Glue4
 import Sds.Proofs.Glue5
 import Sds.Proofs.Glue
 import Sds.Proofs.GenEqIdx
+import Sds.Proofs.GenEqLoop3
 
 namespace Sds.C03
 open Sds Outcome
@@ -565,5 +566,29 @@ theorem sample_index_as_translated_from_source (m : Mode) (s : SampleIndex) (val
 
 /-- the translated `parameters` at a universe of 2^63 with 9 values (the input of finding F8) does not overflow -/
 example : Generated.gen_SampleIndex_parameters .checked 9 (2 ^ 63) = ok (2, 2 ^ 62) := by decide
+
+/-! **The internals of `RLVector` as translated from the source on this run — loops included** (`Generated/FnsLoop.lean`):
+`blocks`, `ones_after`, `decode` (the `loop` over code units with its `return`), `block_for` (the binary search, with the
+sample accessor as a function parameter), `iter_for_block`, `run_iter`.  With block numbers below the block count, data and
+sample lengths representable in `usize`, and `low ≤ high < 2^64` for the search, the code as it is NOW is the model function
+the theorems above are about.  `decode` agrees in the checked build for every stream, and in the wrapping build for every
+stream without 23 consecutive continuation units at the offset — which no integer below 2^64 encodes to
+(`GenEq.rl_decode_encode`: on what the builder writes, both modes decode the value and advance by its code length).  On a
+crafted 23-unit code the release build shifts by `66 % 64` and reads on where the model stops with a panic
+(`GenEq.rl_decode_ne_23`): observation O9 in DESIGN.md, outside the property (files the library or a document-following
+writer produced). -/
+theorem rl_internals_as_translated_from_source (m : Mode) (v : RL) (block offset low high value : Nat) (f : Nat → Outcome Nat)
+    (hs : v.samples.len ≤ U64) (hd : v.data.len < U64) :
+    Generated.gen_RLVector_blocks m v = ok v.blocks ∧
+    Generated.gen_RLVector_run_iter m v = v.runIter ∧
+    (block < v.blocks → Generated.gen_RLVector_ones_after m v block = v.onesAfter block) ∧
+    (v.blocks = (v.data.len + 63) / 64 → block < v.blocks →
+      Generated.gen_RLVector_iter_for_block m v block = v.iterForBlock block) ∧
+    ((m = .wrapping → ¬ GenEq.units23 v offset) → Generated.gen_RLVector_decode m v offset = v.decode m offset) ∧
+    (low ≤ high → high < U64 →
+      Generated.gen_RLVector_block_for m low high value f = RL.blockFor f value (high + 1) low high) :=
+  ⟨GenEq.rl_blocks_eq m v, GenEq.rl_run_iter_eq m v, fun hb => GenEq.rl_ones_after_eq_of_lt m v block hs hb,
+   fun hbl hb => GenEq.rl_iter_for_block_eq_of_lt m v block (Nat.le_of_lt hd) hbl hb,
+   fun h => GenEq.rl_decode_eq m v offset hd h, fun hl hh => GenEq.rl_block_for_eq m low high value f hl hh⟩
 
 end Sds.C03
